@@ -108,7 +108,7 @@ def run_tree(rec, tier, seed, ti, spec, t):
                 one(rec, t, ti, name, b, mode)
 
 
-def one(rec, t, ti, name, data, mode):
+def one(rec, t, ti, name, data, mode, use_guard=True):
     it, br = t.interp, t.bridge
     case = {"tree": ti, "class": name, "bytes": data, "entry_chunked": mode}
     rec.case((ti, name, data, mode), nontrivial=len(data) > 0)
@@ -125,8 +125,23 @@ def one(rec, t, ti, name, data, mode):
         rec.count("oracle-budget-skips")
         return
     fuel = 40 * mr.touches + 4000  # interactions: reads, next_chunk, remaining / position / mode accesses
-    real = t.EoReader(data)
-    g = guardmod.install(real, data)
+    # how the reader is constructed: over the bytes themselves, or over a window of a larger buffer
+    # (EoReader.slice, or a sliced memoryview) whose surroundings contain break bytes and junk
+    how = (len(data) * 7 + ti + (1 if mode else 0)) % 5
+    g = None
+    if how in (3, 4):
+        pre = b"\xff\x01\xfe\xff"[: 1 + (len(data) % 4)]
+        post = b"\x02\xff\x00\xff\xff"[: 1 + (ti % 5)]
+        big = pre + data + post
+        if how == 3:
+            real = t.EoReader(big).slice(len(pre), len(data))
+        else:
+            real = t.EoReader(memoryview(big)[len(pre):len(pre) + len(data)])
+        rec.count("windowed-readers")
+    else:
+        real = t.EoReader(data if how else bytearray(data))
+        if use_guard:
+            g = guardmod.install(real, data)
     model = RefReader(data)
     real.chunked_reading_mode = mode
     model.chunked = mode
@@ -151,6 +166,11 @@ def one(rec, t, ti, name, data, mode):
         return
     except Exception as e:
         gexc = e
+        if use_guard and g is not None and isinstance(e, (AttributeError, TypeError, NotImplementedError)) and "GView" in repr(e):
+            # the implementation uses a part of the buffer API the guarded view does not emulate: the guard is
+            # a diagnostic, so run this case again without it (never an alarm)
+            rec.count("guard-disabled-for-case")
+            return one(rec, t, ti, name, data, mode, use_guard=False)
     rec.count("lockstep-reader-ops", ls.counter[0])
     if g is not None:
         rec.count("guarded-buffer-accesses", g.accesses)
